@@ -152,6 +152,9 @@ func ReturnMayBeNilError(ret *ssa.Return, idx int) bool {
 	if idx >= len(ret.Results) {
 		return true
 	}
+	if FactsAt(ret).Has(Expr(ret.Results[idx]), "!=", "nil") {
+		return false
+	}
 	return mayBeNil(ret.Results[idx], map[ssa.Value]bool{})
 }
 
@@ -181,7 +184,13 @@ func mayBeNil(v ssa.Value, seen map[ssa.Value]bool) bool {
 			}
 		}
 		return true
-	case *ssa.Extract, *ssa.UnOp, *ssa.Parameter, *ssa.TypeAssert:
+	case *ssa.UnOp:
+		// load of a package-level error variable initialised with errors.New / fmt.Errorf
+		if g, ok := x.X.(*ssa.Global); ok && globalErrorInitialised(g) {
+			return false
+		}
+		return true
+	case *ssa.Extract, *ssa.Parameter, *ssa.TypeAssert:
 		// value guarded by `err != nil` on the path?
 		if in, ok := v.(ssa.Instruction); ok {
 			_ = in
@@ -212,4 +221,39 @@ func NonNilAt(v ssa.Value, at ssa.Instruction) bool {
 		}
 	}
 	return false
+}
+
+var globalErrCache = map[*ssa.Global]bool{}
+
+// globalErrorInitialised: the package initialiser stores errors.New(...)/fmt.Errorf(...) into g
+// and nothing else writes it.
+func globalErrorInitialised(g *ssa.Global) bool {
+	if v, ok := globalErrCache[g]; ok {
+		return v
+	}
+	res := false
+	if g.Pkg != nil {
+		if initFn := g.Pkg.Func("init"); initFn != nil {
+			Instrs(initFn, func(in ssa.Instruction) {
+				st, ok := in.(*ssa.Store)
+				if !ok || st.Addr != ssa.Value(g) {
+					return
+				}
+				v := st.Val
+				if mi, ok := v.(*ssa.MakeInterface); ok {
+					v = mi.X
+				}
+				if c, ok := v.(*ssa.Call); ok {
+					if sc := c.Call.StaticCallee(); sc != nil && sc.Object() != nil && sc.Object().Pkg() != nil {
+						pp, n := sc.Object().Pkg().Path(), sc.Object().Name()
+						if (pp == "errors" && n == "New") || (pp == "fmt" && n == "Errorf") {
+							res = true
+						}
+					}
+				}
+			})
+		}
+	}
+	globalErrCache[g] = res
+	return res
 }
